@@ -58,7 +58,7 @@ def run_pool(ctx, module, prop):
     ctx.bound = dict(scenarios=len(scs), tasks_max=max(len(s["tasks"]) for s in scs), deviations=bound, cancels=1 if quick else 2, cores=[1, 2] if quick else [1, 2, 3])
     ctx.assumptions = [
         "asyncio Task/Semaphore/wait/wait_for/StreamReader run as shipped on a hand-stepped BaseEventLoop; child processes, clock and sockets are fakes (validated by the real-process tier)",
-        "the core bound counts processes that have not been sent SIGKILL/SIGTERM (a process that survives SIGKILL is outside gwf's control)",
+        "the core bound counts processes that have not been sent SIGKILL (a process that survives SIGKILL is outside gwf's control; SIGTERM may be ignored, so a process that only got SIGTERM still counts)",
         "state-hash pruning at quiescent points (task table, coroutine positions, semaphore, process table, timers, facts)",
     ]
 
